@@ -1,6 +1,7 @@
 package main
 
 import (
+	"errors"
 	"fmt"
 	"strings"
 	"sync"
@@ -90,8 +91,9 @@ func c19Ctx() pongo2.Context {
 	return pongo2.Context{
 		"sv": "ctx<string>", "iv": 7, "fv": 2.5, "lv": []string{"x", "y", "z"}, "nv": nil, "tv": time.Date(2024, 5, 6, 7, 8, 9, 0, time.UTC),
 		"p": "outer", "q": 3, "mp": map[string]string{"k": "mv", "a(x:)": "subscripted"}, "st": struct{ Name string }{"field"},
-		"ident": func(v *pongo2.Value) *pongo2.Value { return v },
-		"lst":   []string{"l0", "l1", "l2", "l3"},
+		"ident":  func(v *pongo2.Value) *pongo2.Value { return v },
+		"lst":    []string{"l0", "l1", "l2", "l3"},
+		"failfn": func() (string, error) { return "", errors.New("c19: deliberate failure") },
 	}
 }
 
@@ -115,7 +117,13 @@ func c19RandParam(r *Rng) (string, any) {
 }
 
 func c19RandBase(r *Rng) (string, any) {
-	switch r.Intn(8) {
+	switch r.Intn(11) {
+	case 8:
+		return "nv", nil // a context key bound to nil
+	case 9:
+		return "undefinedname", nil
+	case 10:
+		return "\"\"", ""
 	case 0:
 		return "\"lit text\"", "lit text"
 	case 1:
@@ -147,6 +155,9 @@ func c19RandChain(r *Rng, probesOnly bool, maxLen int) c19Chain {
 		f := c19Filter{}
 		if probesOnly || r.Chance(30) {
 			f.name = r.Pick(c19Probes)
+		} else if (ch.baseVal == nil || ch.baseVal == "") && r.Bool() {
+			// empty and nil values: filters that pass them through and filters that react to them
+			f.name = r.Pick([]string{"safe", "default", "default_if_none", "length", "yesno", "join", "first", "last", "escape", "upper", "title", "striptags", "slice", "wordcount"})
 		} else {
 			f.name = r.Pick(c19Builtins)
 		}
@@ -164,7 +175,7 @@ type c19Position struct {
 	name  string
 	files func(e string) map[string]string // main template for expression source e
 	// expect computes the expected output from the composed value (autoescape is off everywhere)
-	expect func(v *pongo2.Value) string
+	expect  func(v *pongo2.Value) string
 	numeric bool
 }
 
@@ -180,14 +191,25 @@ var c19Positions = []c19Position{
 		}
 		return "FF"
 	}, false},
-	{"for", func(e string) map[string]string { return map[string]string{"/main.tpl": "{% for i in " + e + " %}[{{ i }}]{% endfor %}"} }, func(v *pongo2.Value) string {
+	{"for", func(e string) map[string]string {
+		return map[string]string{"/main.tpl": "{% for i in " + e + " %}[{{ i }}]{% endfor %}"}
+	}, func(v *pongo2.Value) string {
 		var sb strings.Builder
-		v.Iterate(func(idx, count int, key, value *pongo2.Value) bool { sb.WriteString("[" + key.String() + "]"); return true }, func() {})
+		v.Iterate(func(idx, count int, key, value *pongo2.Value) bool {
+			sb.WriteString("[" + key.String() + "]")
+			return true
+		}, func() {})
 		return sb.String()
 	}, false},
-	{"with", func(e string) map[string]string { return map[string]string{"/main.tpl": "{% with w=" + e + " %}{{ w }}{% endwith %}"} }, c19Print, false},
-	{"with-as", func(e string) map[string]string { return map[string]string{"/main.tpl": "{% with " + e + " as w %}{{ w }}{% endwith %}"} }, c19Print, false},
-	{"set", func(e string) map[string]string { return map[string]string{"/main.tpl": "{% set w = " + e + " %}{{ w }}"} }, c19Print, false},
+	{"with", func(e string) map[string]string {
+		return map[string]string{"/main.tpl": "{% with w=" + e + " %}{{ w }}{% endwith %}"}
+	}, c19Print, false},
+	{"with-as", func(e string) map[string]string {
+		return map[string]string{"/main.tpl": "{% with " + e + " as w %}{{ w }}{% endwith %}"}
+	}, c19Print, false},
+	{"set", func(e string) map[string]string {
+		return map[string]string{"/main.tpl": "{% set w = " + e + " %}{{ w }}"}
+	}, c19Print, false},
 	{"include-with", func(e string) map[string]string {
 		return map[string]string{"/main.tpl": "{% include \"/p.tpl\" with w=" + e + " %}", "/p.tpl": "{% autoescape off %}{{ w }}{% endautoescape %}"}
 	}, c19Print, false},
@@ -198,7 +220,9 @@ var c19Positions = []c19Position{
 		return map[string]string{"/main.tpl": "{% macro m(a=" + e + ") %}{{ a }}{% endmacro %}{{ m() }}"}
 	}, c19Print, false},
 	{"call-arg", func(e string) map[string]string { return map[string]string{"/main.tpl": "{{ ident(" + e + ") }}"} }, c19Print, false},
-	{"firstof", func(e string) map[string]string { return map[string]string{"/main.tpl": "{% firstof " + e + " \"fallback\" %}"} }, func(v *pongo2.Value) string {
+	{"firstof", func(e string) map[string]string {
+		return map[string]string{"/main.tpl": "{% firstof " + e + " \"fallback\" %}"}
+	}, func(v *pongo2.Value) string {
 		if v.IsTrue() {
 			return v.String()
 		}
@@ -213,7 +237,9 @@ var c19Positions = []c19Position{
 	{"array-item", func(e string) map[string]string {
 		return map[string]string{"/main.tpl": "{% for i in [" + e + "] %}{{ i }}{% endfor %}"}
 	}, c19Print, false},
-	{"array-item-first", func(e string) map[string]string { return map[string]string{"/main.tpl": "{{ [\"z\", " + e + "]|last }}"} }, c19Print, false},
+	{"array-item-first", func(e string) map[string]string {
+		return map[string]string{"/main.tpl": "{{ [\"z\", " + e + "]|last }}"}
+	}, c19Print, false},
 	{"subscript", func(e string) map[string]string { return map[string]string{"/main.tpl": "{{ mp[" + e + "] }}"} }, nil, false},
 }
 
@@ -394,6 +420,14 @@ func c19Run(c *C) {
 		if c.WantSample() && len(ch.filters) >= 3 && probesOnly {
 			c.Sample(D{"position": pos.name, "expression": ch.src()})
 		}
+	}
+	if r.Chance(10) {
+		// a filter tag whose body failed after having produced text went before
+		if _, _, xe := renderString("{% filter lower|upper %}LEFTOVER{{ failfn() }}tail{% endfilter %}", c19Ctx()); xe == nil {
+			c.Fail("filter-tag-differs-from-chain", D{"why": "the failing function's error was lost"})
+			return
+		}
+		c.Cover("after_failed_filter_tag_body")
 	}
 	// filter tag == chain applied to the rendered body
 	ch := c19RandChain(r, probesOnly, 3)
